@@ -23,9 +23,10 @@ EXPLANATION = (
     "abstractly as pushdown transducers over the token classes of the extracted table and compared with the shunting-yard / "
     "tree-building reference on every configuration up to a depth bound (PD, PD2); a named constant (arity-0 function) is popped "
     "by every binary operator (T1 constant)"
+    "; the formula and its postfix form are tokenised at any whitespace (X8)"
 )
 ASSUMPTIONS = ["numpy ufuncs named in the map compute the mathematical function of that name elementwise"]
-FLOORS = {"PD": 4, "PD2": 4, "T1": 14, "T12": 34, "V6": 34 + 13, "V7": 6, "W2": 1, "W3": 5}
+FLOORS = {"X8": 2, "PD": 4, "PD2": 4, "T1": 14, "T12": 34, "V6": 34 + 13, "V7": 6, "W2": 1, "W3": 5}
 
 # Appendix A.1: strictly decreasing binding strength
 LADDER = [["!", "~"], ["^", "**", ".-", ".+"], ["*", "/", "%"], ["+", "-"], ["and"], ["or"]]
@@ -68,6 +69,10 @@ def run(check: Check) -> None:
     shunting.w2_operand_order(check)
     pushdown.infix_to_postfix(check)
     pushdown.parse_postfix(check)
+    from .c16 import tokenisers
+
+    # the transducers above read whitespace-separated tokens: the formula and its postfix form are split at any whitespace (X8)
+    tokenisers(check, only=("Function.infix_to_postfix", "Function.parse"))
     w3_variables(check)
     check.exhaustive_parts += ["operator table vs specification ladder", "pop rule over all orderings", "arity x depth enumeration"]
 
